@@ -64,5 +64,9 @@ class SRCapabilities(TLV):
                     data = struct.unpack('!I', value[7:7 + length])[0]
                     value = value[7 + length:]
                     tmp['sid'] = data
+                else:
+                    # neither a 3-octet label nor a 4-octet SID: skip the sub-TLV
+                    # (always advance, otherwise this loop never ends)
+                    value = value[7 + length:]
                 results.append(tmp)
         return cls(value={"flag": {"I": I, "V": V}, "value": results})
